@@ -398,6 +398,42 @@ PLANS = {
 }
 LEVEL = "model_checking"
 
+# vacuity guard: message kinds / outcomes that the replayed TLC-generated transitions of a property MUST contain
+# (accepted and refused); a zero count means the property's clauses were not exercised -> tool error, not a pass
+REQUIRED = {
+    "C01": [("liquid_stake", "ok"), ("submit_batch", "ok"), ("receive_rewards", "ok"), ("recover", "ok"), ("ibc_ack", "ok")],
+    "C02": [("withdraw", "ok"), ("fee_withdraw", "ok"), ("fee_withdraw", "refused"), ("receive_unstaked_tokens", "ok"), ("recover", "ok")],
+    "C03": [("liquid_stake", "ok"), ("liquid_stake", "refused"), ("submit_batch", "ok"), ("liquid_unstake", "ok"), ("recover", "ok")],
+    "C04": [("liquid_stake", "ok"), ("liquid_stake", "refused"), ("submit_batch", "ok")],
+    "C05": [("withdraw", "ok"), ("withdraw", "refused"), ("liquid_unstake", "ok"), ("receive_unstaked_tokens", "ok")],
+    "C06": [("submit_batch", "ok"), ("submit_batch", "refused"), ("receive_unstaked_tokens", "ok"), ("receive_unstaked_tokens", "refused"), ("time", "ok")],
+    "C07": [("recover", "ok"), ("recover", "refused"), ("ibc_ack", "ok"), ("stray", "ok"), ("liquid_stake", "refused")],
+    "C08": [("fee_withdraw", "refused"), ("resume_contract", "refused"), ("circuit_breaker", "refused"), ("add_validator", "refused"),
+            ("update_config", "refused"), ("transfer_ownership", "refused"), ("accept_ownership", "refused"), ("receive_rewards", "refused"),
+            ("receive_unstaked_tokens", "refused"), ("recover", "refused")],
+    "C09": [("receive_rewards", "ok"), ("receive_rewards", "refused"), ("receive_unstaked_tokens", "refused")],
+    "C10": [("circuit_breaker", "ok"), ("resume_contract", "ok"), ("liquid_stake", "refused"), ("submit_batch", "refused"), ("withdraw", "refused"),
+            ("receive_rewards", "refused")],
+    "C11": [("receive_rewards", "ok"), ("receive_rewards", "refused"), ("fee_withdraw", "ok"), ("fee_withdraw", "refused"), ("update_config", "ok")],
+    "C12": [("transfer_ownership", "ok"), ("accept_ownership", "ok"), ("accept_ownership", "refused"), ("revoke_ownership_transfer", "ok"),
+            ("t_transfer_ownership", "ok"), ("t_accept_ownership", "ok"), ("t_accept_ownership", "refused")],
+    "C13": [("t_swap_in", "ok"), ("t_swap_in", "refused"), ("t_swap_out", "ok"), ("t_spend", "ok"), ("t_spend", "refused"), ("t_update_config", "refused")],
+    "C15": [("liquid_stake", "ok"), ("submit_batch", "ok"), ("receive_rewards", "ok"), ("resume_contract", "ok")],
+}
+
+
+def vacuity_check(prop, replays):
+    tot = {}
+    for st in replays:
+        for k, v in st["by_kind"].items():
+            cur = tot.setdefault(k, {"ok": 0, "refused": 0})
+            cur["ok"] += v["ok"]
+            cur["refused"] += v["refused"]
+    missing = [f"{k}:{o}" for (k, o) in REQUIRED.get(prop, []) if tot.get(k, {}).get(o, 0) == 0]
+    if missing:
+        raise ToolError(f"vacuity: the replayed transitions of {prop} contain no {missing}")
+    return tot
+
 
 # ---------------------------------------------------------------------------------------------
 # C04: arithmetic proved for all naturals (TLAPS), bound to the code by exhaustive small vectors (TLC)
@@ -682,7 +718,30 @@ def hook_c14(binp, tier, seed, wd):
     return extra, viols
 
 
-HOOKS = {"C04": hook_c04, "C19": hook_c19, "C09": hook_c09, "C17": hook_c17, "C18": hook_c18, "C14": hook_c14}
+def hook_c16(binp, tier, seed, wd):
+    """entry points outside the state-machine traces: migrate (all version strings / names / paths on legacy stores),
+    instantiate / UpdateConfig / validator messages of the TLC-enumerated configuration space, the query sweeps - a
+    panic in any of those records is a C16 finding (MigrateTrace / ConfigTrace / QueryTrace report `panic`)."""
+    extra, viols = {}, []
+    mv = os.path.join(wd, "migvec.ndjson")
+    mwh(binp, ["migvec", seed, 3 if tier == "quick" else 20, mv])
+    n1, fs1, _ = small_trace_check("MigrateTrace", mv, wd)
+    msgs = cfg_messages(tier, wd)
+    out, n2, fs2, _ = run_cfg(binp, msgs, wd)
+    qs = os.path.join(wd, "qsweep.ndjson")
+    rc, o = sh([binp, "qsweep", qs, str(seed), "2" if tier == "quick" else "20", "40", "15"], timeout=1800)
+    npanic_q = o.count("__panic")
+    pan = [f for f in fs1 + fs2 if "panic" in str(f.get("atom", ""))]
+    extra["migrate_calls"] = n1
+    extra["config_messages"] = n2
+    extra["panics_outside_traces"] = len(pan) + npanic_q
+    log(f"[c16] {n1} migrate calls, {n2} configuration / validator messages, query sweeps: {len(pan) + npanic_q} panics")
+    for f in pan[:1]:
+        viols.append(("panic", mv if f in fs1 else out, f))
+    return extra, viols
+
+
+HOOKS = {"C04": hook_c04, "C19": hook_c19, "C09": hook_c09, "C17": hook_c17, "C18": hook_c18, "C14": hook_c14, "C16": hook_c16}
 
 
 def run_property(prop, tier, seed):
@@ -709,6 +768,7 @@ def run_property(prop, tier, seed):
         for out, st in replay_edges(binp, n, wd, 1500 if tier == "quick" else 20000, seed):
             traces.append((out, "tree-" + st["model"].replace("@", "-")))
             replays.append(st)
+    action_totals = vacuity_check(prop, replays)
     # 3. drivers on the real code
     nruns = 0
     for mode, runs, steps in pl["walks"][tier]:
@@ -776,6 +836,7 @@ def run_property(prop, tier, seed):
             "tlc_generated_transitions_replayed_on_impl": sum(s["executed"] for s in replays),
             "replay_digest_mismatches": sum(s["mismatches"] for s in replays),
             "replay_by_action": {s["model"]: s["by_kind"] for s in replays},
+            "replay_action_totals": action_totals,
             "trace_lines_validated": total_lines,
             "findings_this_property": len(mine), "findings_known": len(mine) - len(new),
             "findings_other_properties": others, "divergences_not_attributed": divergences,
